@@ -1,11 +1,12 @@
 #!/bin/bash
-# tools/verify_seed.sh <Cxx> : confirm a seeded change in /tmp/mut/<Cxx> (tests pass with it, demo fails with / passes without)
-p=$1; w=/tmp/mut/$p
+# tools/verify_seed.sh <Cxx> [dir=/tmp/mut] : confirm a seeded change in <dir>/<Cxx> (tests pass with it, demo exits 1
+# with it and 0 without it)
+p=$1; w=${2:-/tmp/mut}/$p
 cd $w || exit 2
 git diff -- bobocep > patch.diff
 t=$(/venv/bin/python -m pytest -q -p no:cacheprovider --timeout=900 2>&1 | tail -1)
-PYTHONPATH=$w timeout 300 /venv/bin/python demo_$p.py > /tmp/demo_with.txt 2>&1; with=$?
+PYTHONPATH=$w timeout 600 /venv/bin/python demo_$p.py > $w/.demo_with.txt 2>&1; with=$?
 git apply -R patch.diff
-PYTHONPATH=$w timeout 300 /venv/bin/python demo_$p.py > /tmp/demo_without.txt 2>&1; without=$?
+PYTHONPATH=$w timeout 600 /venv/bin/python demo_$p.py > $w/.demo_without.txt 2>&1; without=$?
 git apply patch.diff
 echo "$p tests: $t | demo with change exit=$with, without exit=$without"
